@@ -170,6 +170,62 @@ def pm_cover_rules(ck, P, rule="R-COVER-PM"):
 
 
 
+PYRAMID_WRITERS = {
+    # module (file) -> the only ways it may modify a coverage pyramid, each confirmed by reading: accumulating stored tiles / blocks
+    "versatiles_container/src/container/tar/reader.rs": {"include_coord"},
+    "versatiles_container/src/container/directory/reader.rs": {"include_coord"},
+    "versatiles_container/src/container/pmtiles/reader.rs": {"include_coord", "&mut:parse_directories"},
+    "versatiles_container/src/container/mbtiles/reader.rs": {"set_level_bbox", "flip_y", "assign:parameters.bbox_pyramid"},
+    "versatiles_container/src/container/versatiles/types/block_index.rs": {"include_bbox"},
+    "versatiles_container/src/container/versatiles/reader.rs": set(),
+}
+
+
+def pyramid_writers_rule(ck, P, rule="R-COVER-WRITERS"):
+    """who may modify the coverage a container reader advertises: only the accumulation of stored tiles (include_coord / include_bbox /
+    set_level_bbox + the one TMS flip).  Any other `&mut` use of a TileBBoxPyramid in the reader modules (an intersection with a
+    declared bounding box, a zoom limit, a clear) makes the advertised coverage differ from the stored tiles."""
+    seen = 0
+    files = set()
+    for b in P.bodies:
+        f = b["s"][0]
+        if f not in PYRAMID_WRITERS:
+            continue
+        files.add(f)
+        allowed = PYRAMID_WRITERS[f]
+
+        def is_pyr(n):
+            t = (n.get("t") or "")
+            return t.replace("&mut ", "").replace("&", "").strip().endswith("TileBBoxPyramid")
+        for n in ir.walk_nodes(b["body"]):
+            what = None
+            if n.get("k") == "mcall" and "recv" in n and is_pyr(ir.strip(n["recv"])):
+                cal = P.fn(n.get("q") or "")
+                r = ir.strip(n["recv"])
+                if cal is not None and cal.get("in_t"):
+                    mut = cal["in_t"][0].startswith("&mut")
+                else:
+                    # callee outside the workspace (Clone, PartialEq, Debug ...): the receiver's adjusted type says how it is borrowed
+                    mut = (r.get("ta") or r.get("t") or "").startswith("&mut") and n.get("name") not in ("clone", "eq", "ne", "fmt", "to_string")
+                if mut:
+                    what = n.get("name")
+            elif n.get("k") == "call":
+                for a in n.get("a", ()):
+                    a = ir.strip(a)
+                    if (a.get("t") or "").startswith("&mut") and is_pyr(a) and a.get("k") in ("ref", "path", "field"):
+                        what = "&mut:" + (n.get("q") or "?").rsplit("::", 1)[-1]
+            elif n.get("k") in ("assign", "assignop") and is_pyr(ir.strip(n["l"])):
+                what = "assign:" + ".".join(ir.place_str(n["l"]).split(".")[-2:])
+            if what is None:
+                continue
+            seen += 1
+            ck.check(what in allowed, rule, "%s|%s" % (b["q"], what), "%s: the pyramid is modified by %s (accumulation of stored tiles)" % (f.rsplit("container/", 1)[-1], what),
+                     "%s modifies a coverage pyramid with `%s`, which is not one of the accumulation steps %s of this reader: the advertised coverage is no longer the bounding boxes of the stored tiles" %
+                     (b["q"], what, sorted(allowed)), ir.loc(n))
+    ck.anchor(rule, "reader modules", sorted(files), len(PYRAMID_WRITERS))
+    ck.anchor(rule, "pyramid modifications in reader modules", list(range(seen)), 8)
+
+
 def rules(ck, P):
     from . import boxalg as _boxalg
     _boxalg.box_core_rules(ck, P)
@@ -203,6 +259,7 @@ def rules(ck, P):
             ck.check(okp, "R-COVER-VT", opn[0]["q"], "the advertised pyramid comes from the block index", "advertised pyramid does not come from the block index", ir.loc(opn[0]))
 
     pm_cover_rules(ck, P)
+    pyramid_writers_rule(ck, P)
     from . import c16 as _c16
     _c16.pm_depth_rules(ck, P)
     comp.pyramid_union_rule(ck, P, "R-COVER-OPS")
